@@ -28,7 +28,8 @@ EXPLANATION = (
     "queue their own expression record, every amending operation addresses the record at the end where records are queued "
     "(evaluated for 1 / 2 / 3 queued records) and the connection removes from the other end; R-tr-rtype-eq, R-tr-port-skip and "
     "R-tr-dims-elem as in C03 (RTLIR type equality admits only identically declared array elements; gen_mapped_ports skips clk / "
-    "reset exactly as asked; a dimension list and the type handed on with it describe the same array, on a [2][3] array); R-C12-wire-forms -- whoever declares packed and per-field forms of a signal also emits the "
+    "reset exactly as asked; a dimension list and the type handed on with it describe the same array, on a [2][3] array) R-tr-dims-recursion (array generators reach every index tuple once, on [2,3] and [3,2]) and R-tr-sections (every "
+    "non-empty section reaches the module text exactly once) as in C03; R-C12-wire-forms -- whoever declares packed and per-field forms of a signal also emits the "
     "assigns between them. "
     "NOT decided: cycle-for-cycle equivalence of arbitrary designs, syntactic validity of arbitrary emitted text, single driver per "
     "variable of the emitted text (in particular the number of assigns generated per flat leaf of nested struct outputs), the port "
@@ -46,7 +47,8 @@ ASSUMPTIONS = [
 _SHARED = (T.rule_hooks, T.rule_handlers, T.rule_optable, T.rule_assign, T.rule_slice, T.rule_width_cast, T.rule_conn,
            T.rule_sigexpr, T.rule_for, T.rule_modname, T.rule_constcache, T.rule_layout, T.rule_index_queue, T.rule_dedup_scope,
            T.rule_loop_state, T.rule_memo_scope, T.rule_ident_intact, T.rule_name_scope, T.rule_const_inline,
-           T.rule_ifc_source, T.rule_range_args, T.rule_block_state, T.rule_rtype_eq, T.rule_port_skip, T.rule_dims_elem)
+           T.rule_ifc_source, T.rule_range_args, T.rule_block_state, T.rule_rtype_eq, T.rule_port_skip, T.rule_dims_elem, T.rule_dims_recursion,
+           T.rule_component_sections)
 RULES = [partial(f, backend=BACKEND) for f in _SHARED]
 for _f, _g in zip(RULES, _SHARED):
     _f.__name__ = _g.__name__
@@ -85,6 +87,21 @@ def _m(name, file, old, new, rule=None, count=1):
 
 
 MUTANTS = [
+    # round-8 kinds: aliasing of shared mutable state / loop-control slips / slips in generated text / key-identity collisions
+    _m('array-admission-compares-second-element-only', T.RTYPE, "    for x in obj[1:]:\n      assert self.get_rtlir(x) == ref_type, \\\n", "    for x in obj[1:2]:\n      assert self.get_rtlir(x) == ref_type, \\\n", 'R-tr-rtype-eq'),
+    _m('array-admission-skips-second-element', T.RTYPE, "    for x in obj[1:]:\n      assert self.get_rtlir(x) == ref_type, \\\n", "    for x in obj[2:]:\n      assert self.get_rtlir(x) == ref_type, \\\n", 'R-tr-rtype-eq'),
+    _m('array-admission-stops-after-first-comparison', T.RTYPE, "    for x in obj[1:]:\n      assert self.get_rtlir(x) == ref_type, \\\n             f'all elements of array {obj} must have the same type {repr(ref_type)}!'\n",
+       "    for x in obj[1:]:\n      assert self.get_rtlir(x) == ref_type, \\\n             f'all elements of array {obj} must have the same type {repr(ref_type)}!'\n      break\n", 'R-tr-rtype-eq'),
+    dict(name='ifc-ports-accumulator-hoisted-out-of-the-interface-loop', rule='R-tr-loop-state', edits=[
+        dict(file=T.G_S4, old="        ports = []\n        all_ifc_ports = ifc_port_rtype.get_all_properties_packed()", new="        all_ifc_ports = ifc_port_rtype.get_all_properties_packed()", count=1),
+        dict(file=T.G_S4, old="      # Translate interfaces of the subcomponent\n", new="      # Translate interfaces of the subcomponent\n      ports = []\n", count=1)]),
+    _m('port-array-recursion-peels-last-dimension', YS1, "        ret += s.port_gen(d, f\"{id_}__{idx}\", n_dim[1:], dtype)", "        ret += s.port_gen(d, f\"{id_}__{idx}\", n_dim[:-1], dtype)", 'R-tr-dims-recursion'),
+    _m('packed-conn-recursion-peels-last-dimension', YS2, "        ret += s._packed_conn_gen( d, _pid, wid, _idx, n_dim[1:], dtype )", "        ret += s._packed_conn_gen( d, _pid, wid, _idx, n_dim[:-1], dtype )", 'R-tr-dims-recursion'),
+    _m('packed-port-recursion-keeps-all-dimensions-but-one-level', YS2, "        ret += s._packed_gen( d, f\"{id_}__{i}\", n_dim[1:], dtype )", "        ret += s._packed_gen( d, f\"{id_}__{i}\", n_dim[2:], dtype )", 'R-tr-dims-recursion'),
+    _m('port-glue-assigns-overwritten-by-separator', T.YS_TR, "      if p_conns and i_conns:\n        p_conns += \"\\n\"", "      if p_conns and i_conns:\n        p_conns = \"\\n\"", 'R-tr-sections'),
+    _m('temporaries-appended-only-to-a-non-empty-body', T.YS_TR, "      tmpvar_decls = \"\\n\" + tmpvar_decls\n    body += tmpvar_decls", "      tmpvar_decls = \"\\n\" + tmpvar_decls\n      body += tmpvar_decls", 'R-tr-sections'),
+    _m('subcomp-wires-replace-the-body', T.YS_TR, "      subcomp_wires = \"\\n\" + subcomp_wires\n    body += subcomp_wires", "      subcomp_wires = \"\\n\" + subcomp_wires\n    body = subcomp_wires", 'R-tr-sections'),
+    _m('port-wires-section-doubled', T.YS_TR, "    port_wires = p_port_wires + i_port_wires\n", "    port_wires = p_port_wires + i_port_wires + p_port_wires\n", 'R-tr-sections'),
     dict(name='subcomp-wire-continue-guard-forgets-marker', rule='R-C12-wire-forms', edits=[
         dict(file=YS4, old="      if c_n_dim or n_dim or \"present\" in wire:\n        wire_decls.append( wire_template.format( **locals() ) )\n",
              new="      if not ( c_n_dim or n_dim ):\n        continue\n      wire_decls.append( wire_template.format( **locals() ) )\n", count=1)]),
@@ -271,6 +288,16 @@ MUTANTS = [
 ]
 
 EQUIV = [
+    _m('array-admission-as-all', T.RTYPE, "    for x in obj[1:]:\n      assert self.get_rtlir(x) == ref_type, \\\n             f'all elements of array {obj} must have the same type {repr(ref_type)}!'\n",
+       "    assert all( self.get_rtlir(x) == ref_type for x in obj[1:] ), \\\n             f'all elements of array {obj} must have the same type {repr(ref_type)}!'\n"),
+    _m('array-admission-loop-over-all-elements', T.RTYPE, "    for x in obj[1:]:\n      assert self.get_rtlir(x) == ref_type, \\\n", "    for x in obj:\n      assert self.get_rtlir(x) == ref_type, \\\n"),
+    _m('ifc-ports-accumulator-created-by-list-call', T.G_S4, "        ports = []\n        all_ifc_ports", "        ports = list()\n        all_ifc_ports"),
+    dict(name='ifc-ports-accumulator-created-first-in-the-loop-body', edits=[
+        dict(file=T.G_S4, old="        ports = []\n        all_ifc_ports = ifc_port_rtype.get_all_properties_packed()", new="        all_ifc_ports = ifc_port_rtype.get_all_properties_packed()", count=1),
+        dict(file=T.G_S4, old="      for ifc_port_id, _ifc_port_rtype in c_rtype.get_ifc_views_packed():\n", new="      for ifc_port_id, _ifc_port_rtype in c_rtype.get_ifc_views_packed():\n        ports = []\n", count=1)]),
+    _m('port-array-recursion-rest-in-a-local', YS1, "        ret += s.port_gen(d, f\"{id_}__{idx}\", n_dim[1:], dtype)", "        rest = n_dim[1:]\n        ret += s.port_gen(d, f\"{id_}__{idx}\", rest, dtype)"),
+    _m('port-glue-separator-by-concatenation', T.YS_TR, "      if p_conns and i_conns:\n        p_conns += \"\\n\"", "      if p_conns and i_conns:\n        p_conns = p_conns + \"\\n\""),
+    _m('temporaries-separator-added-to-the-body', T.YS_TR, "    if body and tmpvar_decls:\n      tmpvar_decls = \"\\n\" + tmpvar_decls\n    body += tmpvar_decls", "    if body and tmpvar_decls:\n      body += \"\\n\"\n    body += tmpvar_decls"),
     dict(name='subcomp-filters-as-continue-guards', edits=[
         dict(file=YS4, old="      if c_n_dim or n_dim or \"present\" in wire:\n        wire_decls.append( wire_template.format( **locals() ) )\n",
              new="      if not ( c_n_dim or n_dim or \"present\" in wire ):\n        continue\n      wire_decls.append( wire_template.format( **locals() ) )\n", count=1),
